@@ -13,6 +13,7 @@ Decided on the scanner table extracted from Lexer.scan (E6) and on the statement
 Not decided: 'never changes the result' as a whole (needs runs); redundant parentheses.
 """
 import ast
+import re
 
 from ..core import norm
 from ..lexmodel import LexModel, LexShapeError
@@ -308,3 +309,140 @@ def run(ctx):
               "handler, not after a `do .. end` handler): the same program with and without that ';' parses "
               "differently", expr="catch section: ';' optional after every handler",
               site="parse_block: optional ';' after every catch handler, block or statement")
+
+    # statement section: a `;` is demanded only where none of end / catch / finally follows (so the last statement may
+    # omit it before each of the three)
+    # (the loop is the one that adds statements to the block; terminator tests may sit in a helper predicate)
+    from .common import resolve_static_call
+
+    def expand(test_text):
+        """`helper(lexer)` -> the expression the helper returns, when the helper is a single `return <expr>`"""
+        try:
+            e_ = ast.parse(test_text, mode="eval").body
+        except SyntaxError:
+            return test_text
+        if isinstance(e_, ast.Call) and isinstance(e_.func, ast.Name) and e_.func.id in parser.funcs:
+            h_ = parser.funcs[e_.func.id]
+            b_ = [x for x in h_.node.body if not (isinstance(x, ast.Expr) and isinstance(x.value, ast.Constant))]
+            if len(b_) == 1 and isinstance(b_[0], ast.Return) and b_[0].value is not None:
+                return norm(b_[0].value)
+        return test_text
+
+    sl = [n for n in ast.walk(pb.node) if isinstance(n, ast.While) and any(
+        isinstance(c_, ast.Call) and norm(c_.func) == "block.add" for c_ in ast.walk(n))]
+    if len(sl) != 1:
+        ctx.broken("parse_block", "statement loop not found")
+    g4 = CFG(_as_func(sl[0].body), implicit_exc=False)
+    from ..facts import must_facts as _mf4, split_test as _st4
+    f4 = _mf4(g4)
+    n_semi = 0
+    for node in g4.nodes:
+        a = node.ast
+        if a is None or node.kind == "for":
+            continue
+        for x in ast.walk(a):
+            if isinstance(x, ast.Call) and norm(x.func) == "lexer.match" and x.args and norm(x.args[0]) == "';'":
+                have = set(f4.get(node.id, frozenset()))
+                for t_, pol_ in list(have):
+                    et = expand(t_)
+                    if et != t_:
+                        try:
+                            have |= _st4(ast.parse(et, mode="eval").body, pol_)
+                        except SyntaxError:
+                            pass
+                excluded = set()
+                for t_, pol_ in have:
+                    if pol_:
+                        continue
+                    try:
+                        e_ = ast.parse(t_, mode="eval").body
+                    except SyntaxError:
+                        continue
+                    if isinstance(e_, ast.Call) and norm(e_.func) == "lexer.peekn" and len(e_.args) >= 2 \
+                            and norm(e_.args[0]) == "1" and isinstance(e_.args[1], ast.Constant):
+                        excluded.add(e_.args[1].value)
+                    elif isinstance(e_, ast.Call) and norm(e_.func) == "lexer.peekOne" and len(e_.args) >= 2 \
+                            and norm(e_.args[0]) == "1" and isinstance(e_.args[1], (ast.List, ast.Tuple)):
+                        excluded |= {x_.value for x_ in e_.args[1].elts if isinstance(x_, ast.Constant)}
+                missing = [kw for kw in ("end", "catch", "finally") if kw not in excluded]
+                n_semi += 1
+                ctx.check("C14.sep", pb, x, not missing,
+                          f"in a block a ';' is demanded after a statement although {missing} may follow: the optional "
+                          f"';' of the last statement becomes mandatory before {' / '.join(missing)}",
+                          expr="statement section: ';' optional before end / catch / finally",
+                          site="parse_block: ';' demanded only when no end / catch / finally follows")
+    if n_semi == 0:
+        ctx.broken("parse_block", "no `lexer.match(';')` in the statement loop")
+
+    # a token's text alone never decides: a string literal can carry any text ('not', 'end', '=='), so every test of
+    # <token>.value against a literal comes with a test of the same token's type
+    from ..facts import short_circuit_facts
+    n_kw = 0
+    for f in parser.funcs.values():
+        sites = [c for c in ast.walk(f.node) if isinstance(c, ast.Compare) and len(c.ops) == 1
+                 and isinstance(c.left, ast.Attribute) and c.left.attr == "value"
+                 and (norm(c.left.value) == "lexer.peek()" or (isinstance(c.left.value, ast.Name) and "tok" in c.left.value.id.lower()))
+                 and (isinstance(c.comparators[0], ast.Constant) and isinstance(c.comparators[0].value, str)
+                      or isinstance(c.comparators[0], (ast.List, ast.Tuple, ast.Name)))]
+        if not sites:
+            continue
+        g5 = CFG(f.node, implicit_exc=False)
+        from .C01 import _kills_cursor
+        f5 = _mf4(g5, kills=_kills_cursor)          # facts about the look-ahead token die when the cursor moves
+        for c in sites:
+            tokexpr = norm(c.left.value)
+            have = set()
+            for node in g5.nodes:
+                a = node.ast if node.kind != "for" else (node.ast.iter if node.ast is not None else None)
+                if a is not None and any(x is c for x in ast.walk(a)):
+                    have = set(f5.get(node.id, frozenset())) | short_circuit_facts(a, c)
+                    # the comparison may itself be one operand of a conjunction whose other operands come later
+                    for b in ast.walk(a):
+                        if isinstance(b, ast.BoolOp) and any(x is c for x in b.values):
+                            for v in b.values:
+                                have |= {(norm(v), True)} if isinstance(b.op, ast.And) else set()
+                        if isinstance(b, ast.BoolOp) and isinstance(b.op, ast.Or) and any(x is c for x in b.values):
+                            # `not a or x.value not in S or x.type not in T`: the negations are what holds afterwards
+                            for v in b.values:
+                                have |= {(norm(v), False)}
+            typed = any(t.startswith(f"{tokexpr}.type") for t, pol in have)
+            n_kw += 1
+            ctx.check("C14.kw", f, c, typed,
+                      f"`{norm(c)[:60]}` decides on the text of a token without looking at its type: a string literal "
+                      f"with that text is taken for the keyword / operator", expr=f"token text test {norm(c)[:60]}",
+                      site=f"{f.qual}: {norm(c)[:50]} together with a test of {tokexpr}.type")
+    if n_kw < 10:
+        ctx.broken("parser.py", f"only {n_kw} token-text tests found")
+
+    # hex escapes: the character appended for \\xNN is the code point NN itself (chr(int(<two hex digits>, 16))), for
+    # every NN - not a byte decoded under some text encoding, which has no character for 0x80..0xff
+    n_esc = 0
+    for st_, leaves in sorted(lm.states.items()):
+        for l in leaves:
+            for a in l.appends:
+                if a[0] != "expr":
+                    continue
+                n_esc += 1
+                txt = a[1]
+                try:
+                    e_ = ast.parse(txt, mode="eval").body
+                except SyntaxError:
+                    ctx.broken("Lexer.scan", f"escape append `{txt}` not understood")
+                by_code_point = any(
+                    isinstance(c_, ast.Call) and norm(c_.func) == "chr" and c_.args and any(
+                        isinstance(i_, ast.Call) and norm(i_.func) == "int" and (
+                            (len(i_.args) == 2 and norm(i_.args[1]) == "16") or
+                            any(k.arg == "base" and norm(k.value) == "16" for k in i_.keywords))
+                        for i_ in ast.walk(c_.args[0])) for c_ in ast.walk(e_))
+                by_encoding = any(isinstance(c_, ast.Attribute) and c_.attr in ("decode", "fromhex")
+                                  or isinstance(c_, ast.Name) and c_.id in ("bytes", "bytearray", "codecs")
+                                  for c_ in ast.walk(e_))
+                if not by_code_point and not by_encoding:
+                    ctx.broken("Lexer.scan", f"escape append `{txt}` not understood")
+                ctx.check("C14.num", fn, None, by_code_point and not by_encoding,
+                          f"state {st_} appends `{txt}` for an escape: a byte decoded under a text encoding, not the "
+                          f"code point of the two hex digits (chr(int(.., 16))): no character for \\x80..\\xff, so the "
+                          f"escaped and the literal spelling of a character differ",
+                          expr=f"state {st_} escape {txt}", site=f"state {st_}: \\xNN -> chr(int(NN, 16))")
+    if n_esc < 2:
+        ctx.broken("Lexer.scan", "hex-escape appends not found")
